@@ -169,15 +169,26 @@ def run_c05(rep, tier, seed):
         numba.set_num_threads(t)
         with np.errstate(all="ignore"):
             try:
-                p = osyris.histogram2d(osyris.Array(xs, unit="m"), osyris.Array(ys, unit="s"), resolution={"x": n, "y": n} if j % 4 == 1 else n, logx=logx, logy=logy, plot=False)
+                lim = {}
+                if j % 5 == 2 and j % 6 != 0 and not logy and fin.sum() >= 2:          # (not on the data whose spread is a few ulps: a limit there is within rounding of the points)
+                    # only the lower y limit is requested (between two data values), everything else automatic
+                    fy = np.unique(ys[fin])
+                    if len(fy) >= 2:
+                        lim["ymin"] = float(fy[0] + 0.01 * (fy[-1] - fy[0]))       # just above the lowest value
+                        fin = fin & (ys >= lim["ymin"])
+                p = osyris.histogram2d(osyris.Array(xs, unit="m"), osyris.Array(ys, unit="s"), resolution={"x": n, "y": n} if j % 4 == 1 else n, logx=logx, logy=logy, plot=False, **lim)
             except Exception as e:
                 rep.mismatch({"module": "HistMachine", "field": "histogram2d-raises"}, f"histogram2d(auto limits) raised {type(e).__name__}: {e} on x={xs.tolist()} y={ys.tolist()}",
                              case={"xs": xs.tolist(), "ys": ys.tolist(), "n": n, "logx": logx, "logy": logy}, module="hist")
                 continue
         cnt = np.ma.filled(p.layers[0]["data"], 0)
         d = None
-        if cnt.sum() != fin.sum():
-            d = f"{int(cnt.sum())} points counted, {int(fin.sum())} points have finite coordinates (automatic limits must span them all)"
+        if "ymin" in lim and n >= 2:
+            edge = float(p.y[0] - 0.5 * (p.y[1] - p.y[0]))
+            if abs(edge - lim["ymin"]) > 1e-9 * max(1.0, abs(lim["ymin"])):
+                d = f"the grid starts at y = {edge!r}, the requested lower limit is {lim['ymin']!r}"
+        if d is None and cnt.sum() != fin.sum():
+            d = f"{int(cnt.sum())} points counted, {int(fin.sum())} points have finite coordinates inside the requested / automatic limits"
         elif n >= 2:
             # bin by the reported centres
             def position(v, c, log):
